@@ -46,8 +46,10 @@ TRUSTED = [
     "Wire/Spec.lean + REF in harness/props/c02.py: the ETSI layouts as data, transcribed by hand from EN 302 636-4-1 "
     "V1.4.1 clause 9 / 6.3 and EN 302 636-5-1 clause 7 (cross-checked against each other on every run)",
     "harness/gen_wire.py (ast passes: enum tables; the binding of the per-reception secured-message context of geonet.Router and "
-    "its reset; the length= argument of the GNDataRequest built by btp_data_request) and harness/dsched.py (deterministic scheduler, "
-    "line-granular pre-emption) for the two-receive-threads scenario",
+    "its reset; the length= argument of the GNDataRequest built by btp_data_request; the number of loads of a `.position_vector` "
+    "attribute behind every ShortPositionVector(...) copy of geonet.Router) and harness/dsched.py (deterministic scheduler, "
+    "line-granular pre-emption; opcode-granular inside the four functions that copy a LocTE vector into a header) for the "
+    "two-receive-threads and the copy-under-concurrent-beacon scenarios",
     "modelled rather than verified: nothing inside the header codecs (pure integer code); the Router's choice WHETHER to "
     "send/forward (geometry, location table, CBF timers) is outside C02 - only the octets of what is sent are judged",
 ]
@@ -60,6 +62,10 @@ ASSUMPTIONS = [
     "through a verifying forwarder, and secured/unsecured packets with a stub SN-VERIFY service (the envelope is opaque; the "
     "verified plain message is an input) incl. two receive threads on one router under harness/dsched.py (line-granular "
     "pre-emption in geonet/router.py, lock points; all 1-pre-emption schedules of the always-on pair)",
+    "a LocTE position vector is an immutable object that other threads only REPLACE (LocationTableEntry.update_position_vector; "
+    "LongPositionVector is a frozen dataclass): the thread model of Wire/Snap.lean is 'history of whole vectors + instants of the "
+    "loads'; exercised on the real code with one copying thread || one thread receiving 1-3 beacons of that station, <= 1 "
+    "pre-emption (thorough: one case with 2)",
     "requested lifetimes < 1 000 000 ms (the cap above is known finding C20-KF1); the LT octet is judged by its VALUE "
     "(greatest representable lifetime not exceeding the request), the standard does not fix the (multiplier, base) pair",
     "interface convention for the hop limit (property text of C20, Lean LTSpec.requestedHops): request.max_hop_limit 0 and 1 mean "
@@ -1873,6 +1879,257 @@ def check_rx_threads(ctx, batch, volume=1):
     return found
 
 
+# ---- a location-table position vector copied into a header while a receive thread replaces it ---------------------
+#
+# Class: the SOURCE operations (and the forwarders' DE PV refresh) that copy the `position_vector` of a LocTE into a header as a
+# Short Position Vector - gn_data_request_guc (DE PV of the originated GUC packet), gn_data_indicate_ls_request (DE PV of the LS
+# reply), gn_data_indicate_guc / gn_data_indicate_ls_reply (step 8 refresh) - run on one thread while the link-layer receive
+# thread processes beacons of THAT station, each of which REPLACES the entry's immutable vector.  Both threads run on the real
+# Router under harness/dsched.py: pre-emption before every attribute / subscript / call bytecode of the four copying functions,
+# before every line of the rest of geonet/router.py and at every lock operation of router / location table.
+# ORACLE (EN 302 636-4-1 10.3.8.2 table 28, 10.3.7.3, 10.3.8.3 step 8): the DE PV field on the wire (octets 40..59) is the short
+# form of ONE of the vectors the location table held for the station during the run - as a whole.  Every vector of a case differs
+# from every other in TST, latitude AND longitude, so any combination of fields of two of them is a vector that never existed.
+# Lean side: Props.C02.de_pv_is_a_table_vector / guc_de_pv_any_schedule / ls_reply_de_pv_any_schedule /
+# forward_guc_refresh_any_schedule on the load counts of the source (Props.C02.de_pv_copies_single_load).
+DEPV_WHATS = ["guc-src", "ls-reply", "guc-fwd", "lsr-fwd"]
+DEPV_FUNCS = ("gn_data_request_guc", "gn_data_indicate_guc", "gn_data_indicate_ls_request", "gn_data_indicate_ls_reply")
+
+
+def depv_codes():
+    return [getattr(router_mod.Router, n).__code__ for n in DEPV_FUNCS if hasattr(router_mod.Router, n)]
+
+
+def beacon_frame(pv, rng_tc=0, mobile=0):
+    """a conformant beacon (reference packer) carrying the long position vector `pv`"""
+    return (ref_pack(R_BASIC, [1, 1, 0, 26 >> 2, 26 & 3, 1])
+            + ref_pack(R_COMMON, [0, 0, 1, 0, 0, 0, rng_tc, mobile, 0, 0, 1, 0]) + ref_pack(R_LPV, lpv_ref(pv)))
+
+
+def build_depv_case(rng, what=None, n_new=None):
+    """one station D with a sequence of position vectors pvs[0], pvs[1], ... (strictly newer time stamps; latitude and longitude
+    change with every vector); pvs[0] is what the router's location table holds when the threads start (`ls-reply`: the SO PV of the
+    LS request itself), pvs[1:] arrive as beacons of D on the receive thread while the other thread copies D's vector into a header"""
+    what = what or rng.choice(DEPV_WHATS)
+    n_new = n_new or rng.choice([1, 1, 2, 3])
+    tst = now_tst()
+    ego = g_ego(rng, tst)
+    ego[2] = (1 << 47) + rng.randint(1, 1 << 40)
+    case = {"kind": "depv", "what": what, "ego": ego}
+    if what in ("guc-fwd", "lsr-fwd"):
+        while True:
+            f = build_fwd_case(rng, "guc" if what == "guc-fwd" else "lsr", mode="simple", rhl_class=rng.choice(["mid", "2", "max"]),
+                               de_state="nbr-newer", fwd_ego=ego)
+            if bytes.fromhex(f["pkt"])[3] >= 2:
+                break
+        case["pkt"] = f["pkt"]
+        first = list(f["de_loct"])
+    else:
+        d = g_addr(rng)
+        d[2] = (1 << 47) + (1 << 44) + rng.randint(1, 1 << 40)
+        first = d + [(tst - rng.randint(1500, 5000)) % (1 << 32), pick(rng, B32S, -(1 << 31), (1 << 31) - 1),
+                     pick(rng, B32S, -(1 << 31), (1 << 31) - 1), rng.randint(0, 1), pick(rng, B15S, -(1 << 14), (1 << 14) - 1), g16(rng)]
+    pvs = [first]
+    dlat, dlon = (-1 if first[4] > 0 else 1), (-1 if first[5] > 0 else 1)      # strictly monotone, away from the 32-bit limits
+    for _ in range(n_new):
+        p = list(pvs[-1])
+        p[3] = (p[3] + rng.choice([1, 2, 100, 333])) % (1 << 32)      # strictly newer (annex C.2)
+        p[4] += dlat * rng.choice([1, 1000, 54321])
+        p[5] += dlon * rng.choice([1, 3000, 98765])
+        p[6], p[7], p[8] = rng.randint(0, 1), pick(rng, B15S, -(1 << 14), (1 << 14) - 1), g16(rng)
+        pvs.append(p)
+    case["pvs"] = pvs
+    if what == "guc-src":
+        payload = bytes(rng.getrandbits(8) for _ in range(rng.choice([0, 4, 30])))
+        case["req"] = {"payload": payload.hex(), "mhl": rng.choice([0, 1, 2, 10, 255]), "tc": [0, rng.randint(0, 1), rng.randint(0, 63)],
+                       "nh": rng.choice([0, 1, 2])}
+    elif what == "ls-reply":
+        lt = rng.randint(1, 63) << 2 | rng.randint(1, 3)
+        mhl = rng.choice([1, 2, 10, 255])
+        case["pkt"] = (ref_pack(R_BASIC, [1, 1, 0, lt >> 2, lt & 3, rng.randint(1, mhl)])
+                       + ref_pack(R_COMMON, [0, 0, 6, 0, 0, rng.randint(0, 1), rng.randint(0, 63), rng.randint(0, 1), 0, 0, mhl, 0])
+                       + ref_pack(R_LSQ, [g16(rng), 0] + lpv_ref(first) + ga_ref(ego[0:3]))).hex()
+    return case
+
+
+class DeRun:
+    """one execution of a `depv` case on ONE real router: thread 0 = the copying operation, thread 1 = the receptions of the
+    beacons of D, one after the other; serially in the order `serial` (policy None) or under the scheduling policy"""
+
+    def __init__(self, case, policy=None, serial=None, max_steps=60000):
+        self.case = case
+        what, pvs = case["what"], case["pvs"]
+        beacons = [beacon_frame(pv) for pv in pvs[1:]]
+        self.sent = [[], []]
+        self.steps, self.choices, self.abort, self.excs, self.nsteps = [], [], None, [], 0
+        cur = {"i": None}
+        sched = {"s": None}
+
+        def who():
+            s = sched["s"]
+            if s is None:
+                return cur["i"]
+            me = s.me()
+            return me.tid if me is not None else None
+
+        with dsched.patched([router_mod, loct_mod], extra={"Timer": _NoTimer}):
+            r, _ll, _inds = mk_router([1, 1, 10, 60, 0], case["ego"], itsGnAreaForwardingAlgorithm=AreaForwardingAlgorithm.SIMPLE)
+            run = self
+
+            class LL:
+                def send(self, packet):
+                    run.sent[who()].append(bytes(packet))
+            r.link_layer = LL()
+            with rs.quiet():
+                if what != "ls-reply":
+                    r.location_table.new_shb_packet(mk_lpv(pvs[0]), b"")      # D is a neighbour holding pvs[0]
+                if what == "guc-src":
+                    rq = case["req"]
+                    data = bytes.fromhex(rq["payload"])
+                    req = GNDataRequest(upper_protocol_entity=CommonNH(rq["nh"]),
+                                        packet_transport_type=PacketTransportType(header_type=HeaderType.GEOUNICAST,
+                                                                                  header_subtype=HeaderSubType.UNSPECIFIED),
+                                        traffic_class=TrafficClass(scf=False, channel_offload=bool(rq["tc"][1]), tc_id=rq["tc"][2]),
+                                        data=data, length=len(data), destination=mk_addr(pvs[0][0:3]), max_hop_limit=rq["mhl"])
+
+                    def op():
+                        r.gn_data_request(req)
+                else:
+                    frame = bytes.fromhex(case["pkt"])
+
+                    def op():
+                        r.gn_data_indicate(frame)
+
+                def rx():
+                    for b in beacons:
+                        r.gn_data_indicate(b)
+                bodies = [op, rx]
+                if policy is None:
+                    for i in (serial or (0, 1)):
+                        cur["i"] = i
+                        try:
+                            bodies[i]()
+                        except Exception as e:  # noqa: BLE001 - the exception IS the observation
+                            self.excs.append((i, type(e).__name__))
+                else:
+                    s = dsched.DSched(policy, line_files=RX_FILES, opcode_codes=depv_codes(), max_steps=max_steps)
+                    sched["s"] = s
+                    s.spawn(op, name="op")
+                    s.spawn(rx, name="beacon")
+                    s.run(timeout=30.0)
+                    self.steps = s.steps
+                    self.choices = [c[0] for c in s.steps]
+                    self.abort = s.abort_reason
+                    self.nsteps = s.nsteps
+                    self.excs = [(ts.tid, type(ts.exc).__name__) for ts in s.threads if ts.exc is not None]
+
+    def judge(self):
+        case = self.case
+        what, pvs = case["what"], case["pvs"]
+        if self.abort:
+            return [f"run aborted by the scheduler: {self.abort}"]
+        tag = {"guc-src": "originated GUC packet (gn_data_request_guc)", "ls-reply": "LS reply (gn_data_indicate_ls_request)",
+               "guc-fwd": "forwarded GUC packet (gn_data_indicate_guc)", "lsr-fwd": "forwarded LS reply (gn_data_indicate_ls_reply)"}[what]
+        tag += f" while {len(pvs) - 1} beacon(s) of the {'requester' if what == 'ls-reply' else 'destination'} are received"
+        out = [f"{tag}: thread {'op' if i == 0 else 'beacon'} raised {e}" for i, e in self.excs]
+        got = self.sent[0]
+        if self.sent[1]:
+            out.append(f"{tag}: the reception of a beacon put {len(self.sent[1])} packet(s) on the link")
+        if len(got) != 1:
+            out.append(f"{tag}: {len(got)} packets sent, expected 1")
+            return out
+        pkt = got[0]
+        ht = {"guc-src": 2, "guc-fwd": 2, "ls-reply": 6, "lsr-fwd": 6}[what]
+        if len(pkt) < 60 or pkt[5] >> 4 != ht:
+            out.append(f"{tag}: sent {pkt[:12].hex()}.. ({len(pkt)} octets) is not a packet of header type {ht} with a 48-octet extended header")
+            return out
+        if what in ("guc-fwd", "lsr-fwd"):
+            rcv = bytes.fromhex(case["pkt"])
+            want = rcv[:3] + bytes([rcv[3] - 1]) + rcv[4:]
+            if pkt[:40] != want[:40] or pkt[60:] != want[60:]:
+                out.append(f"{tag}: differs from the received packet beyond RHL-1 and the DE PV: {pkt.hex()} vs {want.hex()}")
+        held = [ref_pack(R_SPV, spv_ref(pv[0:6])) for pv in pvs]
+        de = pkt[40:60]
+        if de not in held:
+            f = ref_unpack(R_SPV, de)          # m st reserved mid tst lat lon
+
+            def src(i, v):
+                ks = [str(k) for k, pv in enumerate(pvs) if pv[i] == v]
+                return "vector " + "/".join(ks) if ks else "no vector"
+            out.append(f"{tag}: DE PV on the wire (tst={f[4]} lat={f[5]} lon={f[6]}; {de.hex()}) is NONE of the {len(pvs)} position vectors the "
+                       f"location table held for that station " + str([(pv[3], pv[4], pv[5]) for pv in pvs])
+                       + f": TST of {src(3, f[4])}, latitude of {src(4, f[5])}, longitude of {src(5, f[6])} - a vector that never existed")
+        return out
+
+
+def explore_depv(ctx, case, cap, bound=1):
+    """both serial orders, then the schedules with at most `bound` pre-emptions (complete if at most `cap`, else a seeded random
+    sample); every run judged by the oracle.  Returns #violating runs"""
+    what = case["what"]
+    found = 0
+    for order in ([0, 1], [1, 0]):
+        run = DeRun(case, None, serial=order)
+        ctx.evals()
+        bad = run.judge()
+        if bad:
+            found += 1
+            ctx.violation(f"threads one after the other {order}: {bad[0]}", {"kind": "depv", "case": dict(case, serial=order)})
+    if found:
+        return found
+    state = {"n": 0}
+
+    def once(prefix):
+        if state.get("found"):
+            return []
+        run = DeRun(case, dsched.Replay(prefix))
+        ctx.evals()
+        state["n"] += 1
+        ctx.cover("depv:preemptions_%d" % min(dsched.preemptions(run.steps), 3))
+        if run.abort:
+            ctx.cover("depv:aborted:" + run.abort)
+            if state.get("noted") is None:
+                state["noted"] = True
+                ctx.note(f"depv [{what}]: a scheduled run was aborted ({run.abort}) - not judged (deadlocks are C15's subject)")
+            return run.steps
+        bad = run.judge()
+        if bad:
+            again = DeRun(case, dsched.Replay(run.choices))
+            if again.judge():
+                state["found"] = 1
+                ctx.violation(f"{dsched.preemptions(run.steps)} pre-emption(s) (schedule {state['n']} of the enumeration): {bad[0]}",
+                              {"kind": "depv", "case": dict(case, schedule=run.choices)})
+            else:
+                ctx.cover("depv:not_reproduced")
+        state["steps"] = max(state.get("steps", 0), run.nsteps)
+        return run.steps
+    runs, exhausted = enumerate_rx_schedules(once, bound, cap, ctx.rng)
+    ctx.cover("depv:scheduled_runs", runs)
+    ctx.cover(f"depv:{what}:vectors_{len(case['pvs'])}")
+    if exhausted and not state.get("found"):
+        ctx.cover("depv:all-schedules-within-bound-%d" % bound)
+    ctx.nontrivial(("depv", what, case.get("pkt"), str(case["pvs"])))
+    ev = ctx.extra.setdefault("depv", {})
+    ev[f"{len(ev)}:{what}/{len(case['pvs'])} vectors"] = {"runs": runs, "bound": bound, "complete": exhausted, "yield_points": state.get("steps")}
+    return found + state.get("found", 0)
+
+
+def check_depv_threads(ctx, volume=1):
+    rng = ctx.rng
+    found = 0
+    # always: each of the four copy sites against ONE concurrent beacon, all schedules with one pre-emption (within the cap)
+    for what in DEPV_WHATS:
+        found += explore_depv(ctx, build_depv_case(rng, what, n_new=1), ctx.scale(400, 4000) * volume)
+        if found:
+            return found
+    for _ in range(ctx.scale(2, 24) * volume):
+        found += explore_depv(ctx, build_depv_case(rng), ctx.scale(60, 600) * volume)
+        if found:
+            return found
+    if ctx.thorough:
+        found += explore_depv(ctx, build_depv_case(rng, "guc-src", n_new=3), 4000, bound=2)
+    return found
+
+
 def bridge_report(ctx):
     """make the loss of a bridge obligation visible: evidence field + note + histogram key"""
     active = [m for m in MODULES if m != "Props.C02"]
@@ -1911,6 +2168,11 @@ def run_corpus(ctx, batch, var):
             for w in run.judge():
                 ctx.violation("corpus rx2: " + w, {"kind": "rx2", "case": c})
             rx_model(batch, c, run, "corpus")
+        elif k == "depv":
+            c = case["case"] if "case" in case else case
+            run = DeRun(c, None, serial=c["serial"]) if "serial" in c else DeRun(c, dsched.Replay(c.get("schedule", [])))
+            for w in run.judge():
+                ctx.violation("corpus depv: " + w, {"kind": "depv", "case": c})
         elif k == "fwd_secured":
             pass    # the signed-DENM forwarding scenario is always on (check_secured_forward): keys are fresh per run
         ctx.cover("corpus_cases:" + str(k))
@@ -1940,6 +2202,7 @@ def run(ctx):
             check_secured_forward(ctx, batch)
             check_btp_requests(ctx, batch)
             check_rx_threads(ctx, batch)
+            check_depv_threads(ctx)
     finally:
         pass
     batch.flush()
@@ -1965,6 +2228,7 @@ def search(ctx):
                 check_secured_forward(ctx, batch)
                 check_btp_requests(ctx, batch)
                 check_rx_threads(ctx, batch, volume=3)
+                check_depv_threads(ctx, volume=3)
                 batch.items = []
                 if ctx.violations:
                     break
@@ -2018,6 +2282,19 @@ def replay(ctx, obj):
             print(f"reception {i}: {'secured' if rx['secured'] else 'unsecured'} {rx['orig']} frame {rx_frame(rx)[:8].hex()}.. -> sent "
                   f"{[p[:8].hex() + '..(' + str(len(p)) + ')' for p in run.sent[i]]}, prescribed {None if w is None else w[:8].hex() + '..(' + str(len(w)) + ')'}")
         print(bad or "every reception forwarded its own frame with RHL-1")
+        return bool(bad)
+    if kind == "depv":
+        c = case["case"] if "case" in case else case
+        with env():
+            run = DeRun(c, None, serial=c["serial"]) if "serial" in c else DeRun(c, dsched.Replay(c.get("schedule", [])))
+        bad = run.judge()
+        for k, pv in enumerate(c["pvs"]):
+            print(f"vector {k} of the station: tst={pv[3]} lat={pv[4]} lon={pv[5]}  short form {ref_pack(R_SPV, spv_ref(pv[0:6])).hex()}")
+        for p in run.sent[0]:
+            print(f"sent by the copying thread: {p[:12].hex()}.. ({len(p)} octets), DE PV (octets 40..59) {p[40:60].hex()}")
+        if "schedule" in c:
+            print(f"schedule with {dsched.preemptions(run.steps)} pre-emption(s)")
+        print(bad or "the DE PV on the wire is one of the vectors the location table held, as a whole")
         return bool(bad)
     if kind == "fwd_secured":
         with env():
